@@ -1216,14 +1216,14 @@ def history_correspondence(rep, r, tier):
 
 
 THEOREMS = {
-    'C01': ['Source.get_valid_classes_is_model', 'Source.get_valid_classes_refuses', 'Source.get_multiplicity_is_model', 'Source.translator_complete_meta', 'Source.translator_complete_stack', 'Source.get_meta_index_is_model', 'Source.file_idx_is_model', 'C01.convert_lookup_key', 'C01.convert_lookup_key_4d', 'C01.convert_lookup_key_3d',
+    'C01': ['C01.convert_lookup_key', 'C01.convert_lookup_key_4d', 'C01.convert_lookup_key_3d',
             'C01.convert_canonical_key', 'C01.meta_follows_flipped_data', 'C01.fill_index_in_range',
             'C01.fill_index_injective', 'C01.convert_total', 'C01.convert_total_4d', 'C01.convert_total_3d', 'C01.convert_total_5d_t1', 'C01.convert_end_to_end'],
-    'C02': ['Source.file_idx_is_model', 'Source.file_idx_volume_is_model', 'Source.get_data_trim_is_model', 'Source.translator_complete_stack', 'C02.fill_index_in_range', 'C02.fill_index_injective', 'C02.flipped_data_same_files',
+    'C02': ['C02.fill_index_in_range', 'C02.fill_index_injective', 'C02.flipped_data_same_files',
             'C02.canonical_order_unique', 'C02.reorient_transform_maps_back', 'C02.order_change_is_signed_perm',
             'C02.reorder_shape_perm', 'C02.axes_follow_permutation', 'C02.reordered_affine_orientation',
             'C02.stack_fill', 'C02.stack_data_trim', 'C02.stack_affine'],
-    'C11': ['Source.chk_order_check_is_cellwise', 'Source.cells_are_model_blocks', 'Source.get_shape_accepts_iff_model', 'Source.get_shape_counts_is_model', 'Source.accept_is_counts_and_order', 'Source.translator_complete_stack', 'C11.getShape_ok_iff', 'C11.accept_count', 'C11.accept_positions', 'C11.accept_vector_blocks',
+    'C11': ['C11.getShape_ok_iff', 'C11.accept_count', 'C11.accept_positions', 'C11.accept_vector_blocks',
             'C11.accept_spacing', 'C11.refuse_empty', 'C11.refuse_not_factoring', 'C11.refuse_spacing',
             'C11.refuse_vector_count', 'C11.refuse_bad_volume', 'C11.f13_accepted', 'C11.f13_mixes_time',
             'C11.accept_does_not_imply_one_time', 'C11.accept_complete', 'C11.accept_complete_order',
@@ -1231,7 +1231,7 @@ THEOREMS = {
             'C11.add_ok_iff', 'C11.add_refuses_nonimage', 'C11.add_refuses_incongruent', 'C11.add_refuses_collision',
             'C11.add_refused_unchanged', 'C11.add_files_are_accepted', 'C11.add_accepted_congruent',
             'C11.add_cells_distinct'],
-    'C12': ['Source.get_shape_counts_is_model', 'Source.translator_complete_stack', 'C12.sort_perm_invariant', 'C12.chkSort_perm_invariant', 'C12.step_spec', 'C12.run_inv',
+    'C12': ['C12.sort_perm_invariant', 'C12.chkSort_perm_invariant', 'C12.step_spec', 'C12.run_inv',
             'C12.history_independent', 'C12.reverse_involutive', 'C12.add_order_and_history_independent'],
     'C20': ['C20.tm_colons_ignored', 'C20.tm_same_digits', 'C20.tm_instances', 'C20.tm_malformed',
             'C20.tm_two_digits', 'C20.tm_four_digits', 'C20.tm_six_plus', 'C20.time_fns_identical', 'C20.dim_info_axes',
